@@ -174,7 +174,7 @@ type c15Script struct {
 var c15HsTypes = map[string]byte{"hreq": 0, "ch": 1, "sh": 2, "nst": 4, "cert": 11, "skx": 12, "creq": 13, "shd": 14,
 	"cv": 15, "ckx": 16, "fin": 20, "status": 22, "npn": 67, "unk": 99}
 
-var c15InsEvents = map[string]bool{"ccs": true, "badccs": true, "appdata": true, "emptyapp": true, "warn": true, "fatal": true, "closenotify": true,
+var c15InsEvents = map[string]bool{"ccs": true, "badccs": true, "appdata": true, "emptyapp": true, "skx0": true, "warn": true, "fatal": true, "closenotify": true,
 	"badalert": true, "empty": true, "unkrec": true, "bigrec": true, "bigmsg": true, "frag": true, "malformed": true, "badvers": true}
 
 func parseC15Script(s string) (*c15Script, bool) {
@@ -414,6 +414,8 @@ func (m *c15Mitm) insert(e c15Edit, vers uint16) {
 			m.write(recAppData, vers, []byte("hello"))
 		case "emptyapp": // an application-data record with no payload
 			m.write(recAppData, vers, nil)
+		case "skx0": // a ServerKeyExchange message with an empty body
+			m.write(recHandshake, vers, []byte{12, 0, 0, 0})
 		case "warn":
 			m.write(recAlert, vers, []byte{1, 90}) // warning, user_canceled
 		case "fatal":
@@ -661,7 +663,7 @@ func c15Flags(s string) (map[string]bool, bool) {
 	}
 	for _, f := range strings.Split(s, "+") {
 		switch f {
-		case "cert", "ticket", "resume", "tls", "gm", "nist":
+		case "cert", "ticket", "resume", "tls", "gm", "nist", "reneg", "rsa":
 			fl[f] = true
 		default:
 			return nil, false
@@ -714,6 +716,14 @@ func c15Configs(role string, fl map[string]bool, mode string) (ccfg, scfg *gmtls
 		ccfg = gmClientCfg(m)
 	} else {
 		ccfg = &gmtls.Config{RootCAs: std.gmPool, ServerName: "std.test", Time: tlsNow}
+	}
+	if fl["reneg"] { // the client-only option that lets a CLIENT accept HelloRequest after the handshake; set on both
+		// configurations (a server ignores it)
+		ccfg.Renegotiation = gmtls.RenegotiateFreelyAsClient
+		scfg.Renegotiation = gmtls.RenegotiateFreelyAsClient
+	}
+	if fl["rsa"] && kind == "tls" { // RSA key transport: the honest server sends no ServerKeyExchange
+		ccfg.CipherSuites = []uint16{0x009c}
 	}
 	if fl["nist"] { // the client offers P-256 only, so that ECDHE runs over a NIST curve instead of X25519
 		ccfg.CurvePreferences = []gmtls.CurveID{gmtls.CurveP256}
@@ -926,6 +936,9 @@ func c15Flight(role string, fl map[string]bool) [][]string {
 			return [][]string{{"sh", "ccs", "fin"}}
 		}
 		f1 := []string{"sh", "cert", "skx"}
+		if fl["rsa"] && role == "tlsclient" {
+			f1 = []string{"sh", "cert"}
+		}
 		if fl["cert"] {
 			f1 = append(f1, "creq")
 		}
@@ -1282,7 +1295,9 @@ var c15ConfigsOther = []c15Config{{"gmclient", "cert"}, {"gmclient", "ticket"},
 	{"tlsserver", "-"}, {"tlsserver", "cert"}, {"tlsserver", "resume"},
 	{"autoserver", "gm"}, {"autoserver", "tls"}, {"autoserver", "gm+cert"}, {"autoserver", "tls+cert"},
 	{"autoserver", "gm+resume"}, {"autoserver", "tls+resume"},
-	{"tlsserver", "nist"}, {"autoserver", "tls+nist"}, {"tlsclient", "nist"}}
+	{"tlsserver", "nist"}, {"autoserver", "tls+nist"}, {"tlsclient", "nist"},
+	{"tlsclient", "rsa"}, {"tlsclient", "rsa+cert"}, {"tlsserver", "rsa"},
+	{"tlsclient", "reneg"}, {"gmclient", "reneg"}, {"tlsserver", "reneg"}, {"gmserver", "reneg"}, {"autoserver", "tls+reneg"}}
 
 // bytes every message of the type is at least long (length-field perturbations stay inside)
 var c15MinLen = map[string]int{"ch": 40, "sh": 40, "cert": 10, "skx": 8, "creq": 9, "shd": 4, "ckx": 8, "cv": 8, "nst": 10}
@@ -1296,7 +1311,7 @@ var c15HsNamesSorted = func() []string {
 	return n
 }()
 
-var c15RecEvents = []string{"ccs", "badccs", "appdata", "emptyapp", "warn", "fatal", "closenotify", "badalert", "empty", "unkrec", "bigrec",
+var c15RecEvents = []string{"ccs", "badccs", "appdata", "emptyapp", "skx0", "warn", "fatal", "closenotify", "badalert", "empty", "unkrec", "bigrec",
 	"bigmsg", "malformed", "badvers"}
 
 type c15Gen struct {
@@ -1544,6 +1559,11 @@ func genC15(r *rng, tier string, emit func(string)) {
 		for i := range g.flat { // an application-data record WITHOUT payload before every item
 			op(fmt.Sprintf("ins:%d:emptyapp", i))
 		}
+		if g.client { // a ServerKeyExchange with an EMPTY body before every item
+			for i := range g.flat {
+				op(fmt.Sprintf("ins:%d:skx0", i))
+			}
+		}
 		for _, e := range sample(g.retypes(), q) {
 			op(e)
 		}
@@ -1569,7 +1589,7 @@ func genC15(r *rng, tier string, emit func(string)) {
 			small = append(small, g.structural()...)
 			small = append(small, g.framing()...)
 			for i := range g.flat {
-				for _, e := range []string{"ccs", "appdata", "emptyapp", "warn", "warn:6", "fatal", "empty", "shd", "hreq", "unk", "malformed"} {
+				for _, e := range []string{"ccs", "appdata", "emptyapp", "skx0", "warn", "warn:6", "fatal", "empty", "shd", "hreq", "unk", "malformed"} {
 					small = append(small, fmt.Sprintf("ins:%d:%s", i, e))
 				}
 			}
@@ -1693,4 +1713,5 @@ func genC15(r *rng, tier string, emit func(string)) {
 	// handshake message codecs (Model.TLSMessages): harness/c15codec.go
 	c15cGen(r, tier, emit)
 	c06rGenHs(r, tier, emit) // handshake reassembly (Model.ConnRead)
+	c15eGen(r, tier, emit)   // a scripted server that holds the keys (omitted ChangeCipherSpec, extra messages)
 }
